@@ -14,11 +14,12 @@ Cbs1 == {Cb(c[1], c[2], sw) : c \in CbFns, sw \in BOOLEAN}
 Scripts1 == {<<n>> : n \in Leaves \cup Cbs1}
 Scripts2 == {<<Cb("viahost", 1, sw), n>> : sw \in BOOLEAN, n \in Leaves \cup {Cb("trap", 1, FALSE), Cb("mark", 1, TRUE)}}
 
+Typed == {T("M", "w64", 5, <<>>), T("M", "w64", -2, <<>>), T("M", "wf64", 5, <<>>), T("M", "wf64", -2, <<>>), T("M", "wf32", 6, <<>>), T("M", "wide", 7, <<>>), T("M", "wide", -1, <<>>)}
 Deep == {T("M", "rectrap", 40, <<>>), T("M", "recfin", 40, <<>>)}
 Plain == {T("M", "brret", 0, <<>>), T("M", "brret", 1, <<>>), T("M", "brret", 2, <<>>), T("M", "mark", 1, <<>>), T("M", "mark", 4, <<>>), T("A", "peer", 0, <<>>), T("A", "peer", 1, <<>>),
           T("M", "callpeer", 0, <<>>), T("M", "callpeer", 1, <<>>), T("M", "recfin", 5, <<>>),
           T("M", "trap", 0, <<>>), T("M", "trap", 1, <<>>), T("M", "trap", 2, <<>>), T("M", "trap", 3, <<>>), T("M", "trap", 4, <<>>),
-          T("M", "rectrap", 2, <<>>)}
+          T("M", "rectrap", 2, <<>>)} \cup Typed
 PeerHost == {T(i[1], i[2], 2, <<n>>) : i \in {<<"M", "callpeer">>, <<"A", "peer">>}, n \in Leaves}
 Heavy == {T("M", "recfin", 100000000, <<>>), T("M", "recinf", 0, <<>>), T("M", "recinf", 1, <<>>), T("M", "recinf", 2, <<>>)}
 Via == {T("M", "viahost", 1, s) : s \in Scripts1 \cup Scripts2}
@@ -33,7 +34,8 @@ NoStarts == {}
 StartTops == {T("M", "mark", 1, <<>>), T("A", "peer", 0, <<>>), T("M", "callpeer", 0, <<>>)}
 TopsAll == Plain \cup Via \cup Heavy \cup PeerHost \cup Deep
 TopsLight == Plain \cup Via \cup PeerHost \cup Deep
-TopsCore == {T("M", "callpeer", 2, <<Exit(3)>>), T("M", "recfin", 3, <<>>), T("M", "mark", 1, <<>>), T("A", "peer", 0, <<>>), T("M", "callpeer", 1, <<>>), T("M", "trap", 0, <<>>), T("M", "rectrap", 2, <<>>)} \cup
+TopsCore == {T("M", "callpeer", 2, <<Exit(3)>>), T("M", "recfin", 3, <<>>), T("M", "mark", 1, <<>>), T("A", "peer", 0, <<>>), T("M", "callpeer", 1, <<>>), T("M", "trap", 0, <<>>), T("M", "rectrap", 2, <<>>),
+             T("M", "w64", 5, <<>>), T("M", "wf64", -2, <<>>), T("M", "wf32", 6, <<>>), T("M", "wide", 7, <<>>)} \cup
             {T("M", "viahost", 1, s) : s \in {<<Ret(5)>>, <<Panic>>, <<Exit(3)>>, <<Cb("trap", 0, FALSE)>>, <<Cb("trap", 0, TRUE)>>,
                                              <<Cb("viahost", 1, FALSE), Exit(3)>>, <<Cb("viahost", 1, TRUE), Panic>>}}
 =============================================================================
